@@ -50,6 +50,11 @@ def generate(ctx):
         rng.shuffle(order)
         cases.append({"cls": "ImmutableDict", "items": list(items.items()), "order2": order, "new_items": [[hx(b"zz"), hx(b"1")]]})
     ctx.exhaustive_parts.append("every attrs field of every class x setattr/delattr")
+    # frozen mappings whose keys have colliding hashes (-1/-2, 0/2**61-1, 1/2**61): every
+    # insertion order must give equal mappings with equal hashes (keys of one mapping are mutually comparable:
+    # the library sorts the items)
+    for keys in ([-1, -2], [0, 2**61 - 1], [-1, -2, 5], [1, 2**61], [0, 2**61 - 1, -1, -2], [1.0, 2**61], [True, 2**61]):
+        cases.append({"cls": "ImmutableDictRaw", "keys": [repr(k) for k in keys]})
     return cases
 
 
@@ -153,6 +158,20 @@ def check_cases(ctx, cases):
         name = case["cls"]
         ctx.case(case)
         ctx.count("cls=" + name)
+        if name == "ImmutableDictRaw":
+            import ast
+            import itertools
+
+            keys = [ast.literal_eval(k) for k in case["keys"]]
+            pairs = [(k, "v%d" % i) for i, k in enumerate(keys)]
+            ms = [ImmutableDict(dict(p)) for p in itertools.permutations(pairs)]
+            try:
+                hs = {hash(m) for m in ms}
+            except TypeError:
+                hs = {0}
+            if any(not (m == ms[0] and ms[0] == m) for m in ms) or len(hs) != 1 or any(m not in {ms[0]} for m in ms):
+                ctx.fail(case, "frozen mappings with the same items (keys with colliding hashes) compare or hash differently depending on insertion order", "frozenmap-order-dependent:colliding-keys")
+            continue
         if name == "ImmutableDict":
             items = [(unhx(k), unhx(v)) for k, v in case["items"]]
             order2 = [(unhx(k), unhx(v)) for k, v in case["order2"]]
